@@ -324,10 +324,11 @@ Proof.
   - replace (x * (x * 1)) with (x ^ 2) by ring. replace (y * (y * 1)) with (y ^ 2) by ring.
     field; lra.
 Qed.
-(* x ** y on x > 0 *)
-Lemma r_power_0 : exact2_0 f_power (fun x y => 0 < x /\ y <> 0) vjp_power_0.
+(* x ** y on x > 0, every exponent (the rule swaps the exponent for a constant only at x = 0 = y) *)
+Lemma r_power_0 : exact2_0 f_power (fun x y => 0 < x) vjp_power_0.
 Proof.
-  unf. intros x y g [Hx Hy]. unfold vjp_power_0. rewrite rwhere_nz by assumption.
+  unf. intros x y g Hx. unfold vjp_power_0.
+  rewrite rwhere_nz by (apply ror_r; rewrite rneq_neq by lra; apply R1_neq_R0).
   split; [|lin]. auto_derive; [side|]. unfold Rpower.
   replace ((y - 1) * ln x) with (y * ln x + - ln x) by ring.
   rewrite exp_plus, exp_Ropp, exp_ln by assumption. field; lra.
@@ -454,7 +455,7 @@ Lemma j_arctan2_0 : exact2_0 f_arctan2 (fun x y => 0 < y) (flip2 jvp_arctan2_0).
 Proof. apply (exact2_0_ext _ _ vjp_arctan2_0); [same_body|exact r_arctan2_0]. Qed.
 Lemma j_arctan2_1 : exact2_1 f_arctan2 (fun x y => 0 < y) (flip2 jvp_arctan2_1).
 Proof. apply (exact2_1_ext _ _ vjp_arctan2_1); [same_body|exact r_arctan2_1]. Qed.
-Lemma j_power_0 : exact2_0 f_power (fun x y => 0 < x /\ y <> 0) (flip2 jvp_power_0).
+Lemma j_power_0 : exact2_0 f_power (fun x y => 0 < x) (flip2 jvp_power_0).
 Proof. apply (exact2_0_ext _ _ vjp_power_0); [same_body|exact r_power_0]. Qed.
 Lemma j_power_1 : exact2_1 f_power (fun x y => 0 < x) (flip2 jvp_power_1).
 Proof. apply (exact2_1_ext _ _ vjp_power_1); [same_body|exact r_power_1]. Qed.
